@@ -6,6 +6,7 @@ ASSUMPTIONS = [
     "validators of validated(...)/bounded(...) attribute, element and key types (raising at their 1st..6th invocation within the operation, or no longer accepting a stored value) are exercised on the implementation only (harness/c04_validated.py): the instance model has no validated types",
     "KeyedList/KeyedSet-typed attributes are covered by C13/C14, not by this model",
     "a transform handing back a DIFFERENT existing instance (the model's callbacks only allocate) together with attribute transforms is exercised on the implementation only (harness/c04_replacement.py), as are replacement instances + keywords on the classes outside the model",
+    "preparers that resolve a name to an EXISTING object (element of the receiver's own container, registry object) and late failures (copy hooks, dependant preparers / factories) on receivers with EMPTY KeyedList / KeyedSet / List[spec] containers are exercised on the implementation only (harness/c04_existing.py); empty int list / dict / set with a raising __post_copy__ also through the model (inst_gen.empty_container_cases)",
     "open findings (KNOWN_FINDINGS.json): multi-keyword update/transform with _inplace=True",
 ]
 GENS = [
@@ -132,6 +133,10 @@ def _post(chk, cases, bad, extra):
     # keywords, the rejected one after an accepted one -- on the classes outside the model
     import c04_replacement
     c04_replacement.explore(chk, extra, "C04")
+    # preparers resolving a name to an object the receiver / a registry ALREADY holds + nested keywords;
+    # copy-on-write element helpers on EMPTY containers with a failure in the closing step of the call
+    import c04_existing
+    c04_existing.explore(chk, extra, "C04")
 
 
 def _aimed(rng, t):
@@ -164,5 +169,8 @@ def main(tier, replay=None):  # noqa: F811
         import c04_replacement
         if c04_replacement.is_replay(replay):
             return c04_replacement.replay("C04", replay)
+        import c04_existing
+        if c04_existing.is_replay(replay):
+            return c04_existing.replay("C04", replay)
         return inst_check.replay("C04", replay, 16)
     return inst_check.run("C04", tier, 16, GENS, 450, 7000, ASSUMPTIONS, post=_post, aimed=_aimed)
